@@ -136,9 +136,20 @@ theorem split_uid_pieces (short keepTail : List β → Bool) (obs : List (β × 
 numbers the returned pieces 0, 1, 2, … without a gap, whatever was dropped by the limit. -/
 theorem split_uid_numbers (short keepTail : List β → Bool) (obs : List (β × Bool)) :
     (∀ (count b e : Nat) (p : List β), ((count, b, e), p) ∈ splitU short keepTail obs →
-      p = ((obs.map Prod.fst).take (e + 1)).drop b) ∧
+      p = ((obs.map Prod.fst).take (e + 1)).drop b ∧ b ≤ e + 1 ∧ e + 1 ≤ obs.length) ∧
     (splitU short keepTail obs).map (fun x => x.1.1) = List.range (splitU short keepTail obs).length :=
-  ⟨fun count b e p h => (splitU_ids short keepTail obs).1 ((count, b, e), p) h, (splitU_ids short keepTail obs).2⟩
+  ⟨fun count b e p h => by
+      have := (splitU_ids short keepTail obs).1 ((count, b, e), p) h
+      simpa [IdOk] using this,
+   (splitU_ids short keepTail obs).2⟩
+
+/-- T5/T6 (the loop and `Track.extract` agree): every returned piece is what `Track.extract(begin, end)` returns on the
+track for the `begin` / `end` of its uid — `split` calls `track.extract(begin, i)`; the closing piece after a marked last
+observation is `extract(size, size - 1)`, the empty track. -/
+theorem split_uid_extract (short keepTail : List β → Bool) (obs : List (β × Bool)) :
+    ∀ (count b e : Nat) (p : List β), ((count, b, e), p) ∈ splitU short keepTail obs →
+      extract (obs.map Prod.fst) (b : Int) (e : Int) = some p :=
+  fun count b e p h => ((splitU_ids short keepTail obs).1 ((count, b, e), p) h).extract
 
 /-- T6: `Track.extract(a, b)` with `0 ≤ a ≤ b < size` is the run of observations `a..b`, both ends included. -/
 theorem extract_inclusive (l : List β) (a b : Nat) (hab : a ≤ b) (hb : b < l.length) :
